@@ -52,7 +52,7 @@ func modelMods(cs *Case, cr *CaseResult) []int {
 		if has(0) {
 			idx = append(idx, 0)
 		}
-	case "dep":
+	case "dep", "chain":
 		for i := range cs.Mods {
 			if has(i) {
 				idx = append(idx, i)
@@ -232,6 +232,8 @@ func gallinaCase(cs *Case, cr *CaseResult, mode000 bool) string {
 	top := "TopDep"
 	if cs.Top == "single" {
 		top = "TopSingle"
+	} else if cs.Top == "chain" {
+		top = "TopChain"
 	}
 	var sh []string
 	keys := make([]string, 0, len(cr.Shadow))
